@@ -131,8 +131,12 @@ func (k *checker) reparse(alpha []byte, order *int64) {
 	small := 4
 	// accepted strings of the small scope, in enumeration order
 	var items []*rpItem
+	var rejected [][]byte
 	addItem := func(b []byte) bool {
 		l, err, pv, _ := safeDecode(direct, b)
+		if pv == nil && err != nil && len(rejected) < 64 {
+			rejected = append(rejected, cp(b))
+		}
 		if pv != nil || err != nil {
 			return false
 		}
@@ -220,6 +224,55 @@ func (k *checker) reparse(alpha []byte, order *int64) {
 	run(n4*n, func(i int64) (*rpItem, *rpItem) { return items[i/n], items[i%n] })
 	// A from the extra length, B from the base set
 	run((n-n4)*n4, func(i int64) (*rpItem, *rpItem) { return items[n4+i/n4], items[i%n4] })
+	// (f) a parse that FAILS leaves the object as it was: a set that holds names (parsed earlier, or
+	// built by hand) still encodes them after FromBytes returned an error
+	rejected = append(rejected, []byte{5, 'a'}, []byte{0xc0}, cat(tgt, ptr(0), ptr(7)), []byte{0x40, 'a', 0}, cat(label('x', 63), []byte{64}))
+	nf := int64(len(rejected))
+	var nFailed atomic.Int64
+	b0 := *order
+	c.Range(n4*nf, func(i int64) {
+		A, R := items[i/nf], rejected[i%nf]
+		for _, built := range []bool{false, true} {
+			var X rfc1035label.Labels
+			var wantB []byte
+			var errR error
+			var got []byte
+			var names []string
+			pv, stk := fw.Safe(func() {
+				if built {
+					X = rfc1035label.Labels{Labels: append([]string(nil), A.names...)}
+				} else if X.FromBytes(cp(A.b)) != nil {
+					return
+				}
+				wantB = cp(X.ToBytes())
+				errR = X.FromBytes(cp(R))
+				got = cp(X.ToBytes())
+				names = append([]string(nil), X.Labels...)
+			})
+			if pv != nil {
+				c.Report(fw.Violation{Fingerprint: "Labels.FromBytes|panic|" + fw.PanicSite(stk), Order: b0 + i, Scope: "f:failed-parse", Input: "A=" + fw.HexShort(A.b) + " R=" + fw.HexShort(R),
+					Observed: fmt.Sprintf("panic: %v at %s", pv, stk), Expected: "no panic"})
+				continue
+			}
+			if errR == nil {
+				continue // accepted into a non-empty object although a fresh parse rejects it: clause (e) reports verdict differences
+			}
+			nFailed.Add(1)
+			if !bytes.Equal(got, wantB) || !sameNames(names, A.names) {
+				how := "parsed from " + fw.HexShort(A.b)
+				if built {
+					how = "built from the names " + q(A.names)
+				}
+				c.Report(fw.Violation{Fingerprint: "Labels.FromBytes|failed-parse-changes-the-object", Order: b0 + i, Scope: "f:failed-parse",
+					Input:    "a label set " + how + "; then X.FromBytes(" + fw.HexShort(R) + ") returns an error",
+					Observed: "afterwards X.ToBytes() = " + fw.HexShort(got) + ", X.Labels = " + q(names), Expected: "still " + fw.HexShort(wantB) + " and " + q(A.names),
+					Explain:  "decoding either fails or yields names: a failed decode must not leave the rejected bytes (or anything else) in the set, whose names were not changed"})
+			}
+		}
+	})
+	*order += n4 * nf
+	c.Nontrivial(nFailed.Load())
+	c.Scope("f:failed-parse", "what", "every base-set item A (parsed, and built by hand from its names) x every rejected string R: X.FromBytes(R) fails and X still encodes A", "rejected_strings", nf, "cases_with_failing_parse", nFailed.Load())
 	pairs := n4*n + (n-n4)*n4
 	extraDesc := "none (thorough tier only)"
 	if extraLen > 0 {
